@@ -685,7 +685,7 @@ func c12Ops(d gdesc, r *rng.R, allLen, nSent int) []string {
 		}
 		ml := minLens(d)
 		for i := 0; i < nSent; i++ {
-			s, ok := genSentence(d, ml, r, r.Range(0, 7))
+			s, ok := genSentence(d, ml, r, []int{0, 2, 3, 4, 5, 6, 7, 7}[i%8])
 			if !ok {
 				continue
 			}
@@ -847,7 +847,11 @@ func randGrammar(r *rng.R, style int) gdesc {
 			}
 			k := r.Range(1, min(3, d.nT))
 			for i := 0; i < k; i++ {
-				b := append([]sdesc{{true, perm[i]}}, randBody(r, d, 3, 45)...)
+				pT := 45
+				if i == 0 && r.Chance(7, 10) {
+					pT = 100 // a terminals-only alternative keeps the non-terminal productive
+				}
+				b := append([]sdesc{{true, perm[i]}}, randBody(r, d, 3, pT)...)
 				d.prods = append(d.prods, pdesc{h, b})
 			}
 			if r.Chance(2, 5) {
@@ -954,8 +958,8 @@ func main() {
 			if !verifies(d) {
 				continue
 			}
-			allLen := map[int]int{1: 7, 2: 5, 3: 3, 4: 3}[d.nT]
-			runCase(w, d, c12Ops(d, r, allLen, 14))
+			allLen := map[int]int{1: 7, 2: 5, 3: 4, 4: 3}[d.nT]
+			runCase(w, d, c12Ops(d, r, allLen, 30))
 		}
 	default:
 		fmt.Fprintln(os.Stderr, "unknown mode")
